@@ -19,6 +19,7 @@ pub mod c13;
 pub mod c14;
 pub mod c15;
 pub mod c16;
+pub mod c17;
 
 pub fn run(id: &str, tier: Tier, seed: u64) -> Option<i32> {
     Some(match id {
@@ -38,13 +39,14 @@ pub fn run(id: &str, tier: Tier, seed: u64) -> Option<i32> {
         "C14" => c14::run(tier, seed),
         "C15" => c15::run(tier, seed),
         "C16" => c16::run(tier, seed),
+        "C17" => c17::run(tier, seed),
         _ => return None,
     })
 }
 
 /// Universes private to single checks (for replay).
-pub fn universe_by_tag(_tag: &str) -> Option<Uni> {
-    None
+pub fn universe_by_tag(tag: &str) -> Option<Uni> {
+    c17::uni_by_tag(tag)
 }
 
 /// Replay of case kinds private to single checks. Returns the number of violations reproduced.
@@ -58,6 +60,7 @@ pub fn replay(prop: &str, case: &serde_json::Value) -> Result<u64, String> {
             c10::replay(case)
         }
         "c16-history" => c16::replay(case),
+        "c17-text" | "c17-step" | "c17-builtin" => c17::replay(case),
         "c14-doc" | "c14-roundtrip" => c14::replay(case),
         "c08-step" | "c08-builder" => c08::replay(case),
         _ => Err(format!("no replay handler for property {prop} case kind {:?}", case["kind"])),
